@@ -38,6 +38,7 @@ type interpreter struct {
 	pools              map[*value]*poolState
 	ghost              map[string]value
 	events             []evRec
+	conc               *concState
 	depth              int
 }
 
@@ -183,7 +184,13 @@ func visitInstr(fr *frame, instr ssa.Instruction) continuation {
 		// no-op
 
 	case *ssa.UnOp:
-		fr.env[instr] = unop(ex, instr, fr.get(instr.X))
+		x := fr.get(instr.X)
+		if instr.Op == token.MUL && fr.i.conc != nil {
+			if p, ok := x.(*value); ok {
+				fr.i.logAccessDeep(mustDeref(instr.X.Type()), p, false, fr)
+			}
+		}
+		fr.env[instr] = unop(ex, instr, x)
 
 	case *ssa.BinOp:
 		fr.env[instr] = binop(ex, instr.Op, instr.X.Type(), fr.get(instr.X), fr.get(instr.Y))
@@ -248,6 +255,9 @@ func visitInstr(fr *frame, instr ssa.Instruction) continuation {
 		ex.unsupported("channel send")
 
 	case *ssa.Store:
+		if fr.i.conc != nil {
+			fr.i.logAccessDeep(mustDeref(instr.Addr.Type()), fr.get(instr.Addr).(*value), true, fr)
+		}
 		store(mustDeref(instr.Addr.Type()), fr.get(instr.Addr).(*value), fr.get(instr.Val))
 
 	case *ssa.If:
@@ -290,6 +300,9 @@ func visitInstr(fr *frame, instr ssa.Instruction) continuation {
 		if instr.Heap {
 			addr = new(value)
 			fr.env[instr] = addr
+			if fr.i.conc != nil {
+				fr.i.noteAlloc(addr)
+			}
 		} else {
 			addr = fr.env[instr].(*value)
 		}
@@ -307,11 +320,21 @@ func visitInstr(fr *frame, instr ssa.Instruction) continuation {
 			sl[i] = zero(tElt)
 		}
 		fr.env[instr] = sl[:n]
+		if fr.i.conc != nil {
+			fr.i.noteAllocSlice(sl)
+		}
 
 	case *ssa.MakeMap:
-		fr.env[instr] = makeMap(instr.Type().Underlying().(*types.Map).Key())
+		m := makeMap(instr.Type().Underlying().(*types.Map).Key())
+		fr.env[instr] = m
+		if fr.i.conc != nil {
+			fr.i.noteAlloc(m)
+		}
 
 	case *ssa.Range:
+		if m, ok := fr.get(instr.X).(*omap); ok && fr.i.conc != nil {
+			fr.i.logAccess(m, false, fr)
+		}
 		fr.env[instr] = rangeIter(ex, fr.get(instr.X), instr.X.Type())
 
 	case *ssa.Next:
@@ -361,6 +384,9 @@ func visitInstr(fr *frame, instr ssa.Instruction) continuation {
 		case string, *symStr:
 			fr.env[instr] = strIndex(fr, x, fr.get(instr.Index), instr.Index.Type())
 		default:
+			if m, ok := x.(*omap); ok && fr.i.conc != nil {
+				fr.i.logAccess(m, false, fr)
+			}
 			fr.env[instr] = lookup(ex, instr, x, fr.get(instr.Index))
 		}
 
@@ -372,6 +398,9 @@ func visitInstr(fr *frame, instr ssa.Instruction) continuation {
 		case *omap:
 			if m == nil {
 				panic(rtErr("assignment to entry in nil map"))
+			}
+			if fr.i.conc != nil {
+				fr.i.logAccess(m, true, fr)
 			}
 			m.insert(ex, key, v)
 		default:
